@@ -397,6 +397,8 @@ class PythonToIrCompiler:
                     "which is not supported. Use //= instead.",
                 )
             else:
+                if op_typ not in self.binop_map:
+                    self.not_impl(statement)
                 op = self.binop_map[op_typ]
                 value = self.emit(
                     ir.Binop(lhs, op, rhs, "augassign", var.ty)
